@@ -1030,3 +1030,7 @@ mod test {
         assert_eq!(mutable.data.child_data[0].data.buffer1.capacity(), 192);
     }
 }
+
+#[cfg(kani)]
+#[path = "/verif/kani/arrow-data/transform/mod.rs"]
+mod verif_kani;
